@@ -218,8 +218,6 @@
          (= (pieceAt p f) #x01) (has (colSet p (stm p)) f) (legal p (mkMv f t)))))
 (define-fun epNormal ((p Pos)) Bool (or (= (ep p) #x00) (epCandOK p true) (epCandOK p false)))
 
-; no legal move at all (used only in goals of the form "some move is legal")
-(define-fun noLegalMove ((p Pos)) Bool (forall ((m Mv)) (not (legal p m))))
 
 ; ------------------------------------------------------------------ pieces attacking / reaching a square
 ; pieces of colour c that attack square t when the occupancy is occ (looked up from the target square;
